@@ -74,8 +74,9 @@ LEVEL = {
            "accepted by the reference decoder Spec.runRows (written from the format rules, no shared code) and denote exactly "
            "the input, in order (simulation writer/spec: exact lookup mirror, delta bases, repeated terms; LRU argument that no "
            "entry referenced by a statement is evicted within it). With C06_rows_independent_of_flow this holds for every "
-           "frame size/flow. Row level; the wire layer is covered by the wire round-trip theorems when present and by the "
-           "byte-exact correspondence; namespace rows by namespace_run. The referee run on the REAL bytes is the outside "
+           "frame size/flow. C03_bytes_delimited lifts it to bytes: splitting the written bytes with the Lean wire parser and "
+           "applying the rules yields exactly the input (written_rows_wireWF: every id written is <= 4096 < 2^32; "
+           "wire_delimited_roundtrip). Namespace rows: namespace_run. The referee run on the REAL bytes is the outside "
            "decoder the property asks for.",
     "C07": "Theorems C07_frames_eq_rows / C07_repartition (decoding frames == decoding the concatenated rows, for every frame "
            "list incl. empty frames; hence any two partitions agree), C07_grouped_one_per_frame, C07_grouped_concat_eq_flat "
@@ -101,8 +102,10 @@ LEVEL = {
            "each of which fits the tables: serialization succeeds, leaves nothing in the flow, and parsing the frames produced "
            "(options from the first frame, one decoder across frames) returns EXACTLY the input sequence — same length, order "
            "and duplicates, xsd:string ≡ plain. Composition of C03 (valid + denotes), C04 (decoder = denotation), C06, C07. "
-           "Frames level; the protobuf wire layer and the delimiting detection are covered by the wire round-trip and C08 "
-           "theorems when present, and by the byte-exact correspondence.",
+           "BYTE level: C01_triples_bytes_delimited/_single, C01_quads_bytes, C01_graphs_bytes — the model's flat parser applied "
+           "to the bytes written (write_delimited per frame, or write_single per frame) returns exactly the input; this adds "
+           "the wire round trip, the framing detection (C08) and the first-frame search to the composition. Side conditions: "
+           "quoted triples nest < 98 deep (protobuf recursion limit), frames < 2^32 bytes.",
     "C19": "Theorems C19_triples / C19_quads / C19_graphs: for every constructible stream and every sequence of well-formed, "
            "fitting statements (on which Python == and the format's notion of equal terms coincide: no xsd:string-typed "
            "literal), the audit of the written rows against the reference decoder's state is all zeros — no entry for a string "
